@@ -1,7 +1,7 @@
 \* C11 (quick): every program of two tiny-family leaves + two steps, 3 generators, transforms left lazy
 CONSTANTS K = 4
   Grid = 3
-  LeafFam = "tiny"
+  LeafFam = "tinyq"
   GenNames = {"R90", "TXP", "MY"}
   OpNames <- Ops2
   MaxLeaf = 2
